@@ -158,7 +158,8 @@ theorem heap_source_program (ast : Block) (r : RBlock) (bc : Bytecode) (hc : com
     (hin : inFragmentH r = true) (F : Nat) :
     match evalB F r {} with
     | .val () st' => ∃ mv n s', (∀ k, runSteps bc.code (n + k) (VM.start {} bc) = .value mv s') ∧
-        s'.mem.heap.tree treeDepth [] mv = st'.tree treeDepth [] st'.last ∧ s'.out = st'.out
+        s'.mem.heap.tree treeDepth [] mv = st'.tree treeDepth [] st'.last ∧ s'.out = st'.out ∧
+        (finishValue mv s').mem.heap.tree treeDepth [] mv = s'.mem.heap.tree treeDepth [] mv
     | .err er ste => ∃ n s', (∀ k, runSteps bc.code (n + k) (VM.start {} bc) = .error er s') ∧ s'.out = ste.out
     | .brk _ => False
     | .cont _ => False
@@ -176,6 +177,51 @@ theorem heap_source_program (ast : Block) (r : RBlock) (bc : Bytecode) (hc : com
       simp only [hcr] at hc
       injection hc with hc; injection hc with h1 h2; subst h1; subst h2
       exact heap_program r' Γ' hx bc' hcr F
+
+/-- THE OBSERVATION ITSELF, stage 5: for a text whose resolved tree lies in the fragment, whatever the
+    definitional semantics answers with some fuel (a value with its printed output, or an error after
+    its printed output) is exactly what `eval` answers on the machine for every large enough
+    instruction budget — including the hand-over of the result at `Halt` (`untrace`) and the release
+    of everything else by the run's collector (`destroy`) -/
+theorem heap_eval_text (cc : CharClass) (src : Text) (ast : Block) (r : RBlock) (bc : Bytecode) (hp : parse cc src = .ok ast)
+    (hc : compileProgram ast = .ok (r, bc)) (hin : inFragmentH r = true) (F : Nat) :
+    match specText cc F src with
+    | .value t out => ∃ n, ∀ k, evalText cc (n + k) src = .value t out
+    | .error e out => ∃ n, ∀ k, evalText cc (n + k) src = .error e out
+    | .fault _ => False
+    | _ => True := by
+  have hsim := heap_source_program ast r bc hc hin F
+  have hres : resolveProgram ast = .ok r := by
+    unfold compileProgram at hc
+    cases hr : resolveProgram ast with
+    | error e => simp [hr] at hc
+    | ok r' =>
+      simp only [hr] at hc
+      cases hcr : compileR r' with
+      | error e => simp [hcr] at hc
+      | ok bc' => simp only [hcr] at hc; injection hc with hc; injection hc with h1 h2; rw [h1]
+  simp only [specText, hp, hres, Spec.evalProgram]
+  cases hr : evalB F r {} with
+  | val u st' =>
+    rw [hr] at hsim
+    obtain ⟨mv, n, s', hn, ht, ho, hf⟩ := hsim
+    refine ⟨n, fun k => ?_⟩
+    simp only [evalText, hp, hc, VM.run, hn k]
+    rw [hf, ht]
+    have : (finishValue mv s').out = s'.out := rfl
+    rw [this, ho]
+  | err er ste =>
+    rw [hr] at hsim
+    obtain ⟨n, s', hn, ho⟩ := hsim
+    refine ⟨n, fun k => ?_⟩
+    simp only [evalText, hp, hc, VM.run, hn k]
+    have : (finishError s').out = s'.out := rfl
+    rw [this, ho]
+  | fuel => trivial
+  | brk _ => rw [hr] at hsim; exact hsim.elim
+  | cont _ => rw [hr] at hsim; exact hsim.elim
+  | ret _ _ => rw [hr] at hsim; exact hsim.elim
+  | unspec _ => trivial
 
 end SimH
 end Nl
